@@ -137,6 +137,141 @@ def run_api(ctx, cases, exes, G):
         ctx.sample(dict(S=c['S'], C=c['C'], regime=c['regime'], options='all 16 clip type x fill rule, random pc/rs, builds ' + ','.join(exes)))
 
 
+# ----------------------------------------------------------------------------- model <-> code tie
+def rand_edge(rng, allow_open=True):
+    opn = allow_open and rng.chance(1, 6)
+    pt = 0 if opn else rng.below(2)
+    d = rng.choice([1, -1])
+    wc = rng.range(-3, 3)
+    wc2 = rng.range(-2, 2)
+    hot = rng.choice([0, 0, 1, 2])
+    return (pt, d, wc, wc2, hot, 1 if opn else 0)
+
+
+def fmt_edge(e):
+    return '%d %d %d %d %d %d' % e
+
+
+def kernel_tie(ctx, exe, n_swc, n_isect):
+    """Exact correspondence between the extracted Sweep1D model and the real SetWindCountFor*PathEdge,
+    IsContributing*, IntersectEdges on synthetic AELs (private access, no hooks)."""
+    oracle = vf.oracle_build('sweep')
+    rng = ctx.rng.fork(7)
+    lines = []
+    for _ in range(n_swc):
+        n = rng.range(0, 6)
+        es = [rand_edge(rng) for _ in range(n)]
+        pos = rng.range(0, n)
+        opn = rng.chance(1, 5)
+        lines.append('SWC %d %d %d %s %d %d %d %d' % (rng.range(1, 4), rng.range(0, 3), n, ' '.join(fmt_edge(e) for e in es),
+                                                      pos, 0 if opn else rng.below(2), rng.choice([1, -1]), 1 if opn else 0))
+    # IntersectEdges: structured enumeration of the decision-relevant space + random fill
+    isect = []
+    for ct in (1, 2, 3, 4):
+        for fr in (0, 1, 2, 3):
+            for _ in range(n_isect // 16):
+                e1 = rand_edge(rng)
+                e2 = rand_edge(rng)
+                if fr == 0:   # EvenOdd keeps |wc| = 1 and wc2 in {0,1} for closed edges
+                    if not e1[5]:
+                        e1 = (e1[0], e1[1], rng.choice([1, -1]), rng.below(2), e1[4], 0)
+                    if not e2[5]:
+                        e2 = (e2[0], e2[1], rng.choice([1, -1]), rng.below(2), e2[4], 0)
+                same = 1 if (e1[4] and e2[4] and e1[4] != e2[4] and not e1[5] and not e2[5] and rng.chance(1, 2)) else 0
+                ph = rng.below(3)
+                isect.append('ISECT %d %d %d %d %s %s' % (ct, fr, same, ph, fmt_edge(e1), fmt_edge(e2)))
+    lines += isect
+    impl, f1 = vf.par_lines(exe, lines)
+    if f1:
+        l, rc, err = vf.isolate_failure(exe, f1[0][0])
+        ctx.violation('tie-break:sweep-kernel-crash', 'real engine kernel crashed on a synthetic AEL (rc=%s): %s' % (rc, err[-300:]),
+                      replay=dict(line=l), nofail=True)
+        return False
+    model, f2 = vf.par_lines(oracle, lines)
+    if f2:
+        raise vf.Infra('sweep oracle failed: %s' % f2[0][2][-500:])
+    def norm(x):
+        t = x.split()
+        return ['fail'] if t and t[0] == 'fail' else t
+    bad = [(l, a, b) for l, a, b in zip(lines, impl, model) if norm(a) != norm(b)]
+    ctx.cov['kernel_tie_cases'] = len(lines)
+    ctx.cov['kernel_tie_disagreements'] = len(bad)
+    ctx.hist('kernel_tie_kinds', 'SWC', n_swc)
+    ctx.hist('kernel_tie_kinds', 'ISECT', len(isect))
+    acts = {}
+    for l, a in zip(lines, impl):
+        if l.startswith('ISECT'):
+            acts[a.split()[0]] = acts.get(a.split()[0], 0) + 1
+    ctx.cov['kernel_tie_isect_outcomes'] = acts
+    if bad:
+        ctx.cov['kernel_tie_first_disagreements'] = [dict(case=l, impl=a, model=b) for l, a, b in bad[:5]]
+        ctx.tie_broken = bad[:20]
+        return False
+    return True
+
+
+def execute_internal_hash():
+    """token hash of ClipperBase::ExecuteInternal's body: the SNAP driver replicates it"""
+    import re, hashlib
+    src = vf.read(os.path.join(vf.SRC, 'clipper.engine.cpp'))
+    m = re.search(r'bool ClipperBase::ExecuteInternal\(.*?\n  \}\n', src, flags=re.S)
+    if not m:
+        return None
+    body = re.sub(r'//[^\n]*', '', m.group(0))
+    return hashlib.sha256(''.join(body.split()).encode()).hexdigest()[:16]
+
+
+EXECUTE_INTERNAL_HASH = '0d7de3b394c3b430'
+
+
+def snapshots(ctx, exe, cases):
+    """Drive ExecuteInternal's loop step by step on real inputs and evaluate the proved invariant inv_b on the
+    AEL between phases (general position: no joins)."""
+    oracle = vf.oracle_build('sweep')
+    h = execute_internal_hash()
+    if h != EXECUTE_INTERNAL_HASH:
+        ctx.notes.append('ExecuteInternal body changed (token hash %s != %s): snapshot driver is stale' % (h, EXECUTE_INTERNAL_HASH))
+        ctx.snap_stale = True
+        return
+    lines, meta = [], []
+    for ci, c in enumerate(cases):
+        for ct in CT:
+            fr = (ci + ct) % 4
+            lines.append('SNAP %d %d %s %s %s' % (ct, fr, vf.fmt_paths(c['S']), vf.fmt_paths([]), vf.fmt_paths(c['C'])))
+            meta.append((ci, ct, fr))
+    outs, fails = vf.par_lines(exe, lines)
+    if fails:
+        l, rc, err = vf.isolate_failure(exe, fails[0][0])
+        ctx.violation('crash.stepped-execute', 'stepped ExecuteInternal crashed (rc=%s): %s' % (rc, err[-300:]), replay=dict(line=l))
+        return
+    inv_lines = []
+    nsnap = 0
+    for (ci, ct, fr), o in zip(meta, outs):
+        t = o.split()
+        k = int(t[1]); pos = 2; snaps = []
+        for _ in range(k):
+            n = int(t[pos]); pos += 1
+            es = []
+            for _ in range(n):
+                pt, d, wc, wc2, hot, opn, joined = t[pos:pos + 7]; pos += 7
+                es.append('%s %s %s %s %s %s' % (pt, d, wc, wc2, hot, opn))
+            snaps.append('%d %s' % (n, ' '.join(es)))
+        nsnap += k
+        inv_lines.append('INV %d %d %d %s' % (ct, fr, k, ' '.join(snaps)))
+    res, fails = vf.par_lines(oracle, inv_lines)
+    if fails:
+        raise vf.Infra('sweep oracle INV failed: %s' % fails[0][2][-500:])
+    ctx.cov['ael_snapshots_checked'] = nsnap
+    for (ci, ct, fr), r, l in zip(meta, res, lines):
+        flags = r.split()
+        if '0' in flags:
+            c = cases[ci]
+            ctx.violation('sweep-invariant-violated',
+                          'AEL snapshot %d of a real run (%s/%s, regime %s) violates the proved sweep invariant '
+                          '(wind counts / hot flags / sides inconsistent with the region)' % (flags.index('0'), CT[ct], FR[fr], c['regime']),
+                          replay=dict(S=c['S'], C=c['C'], ct=ct, fr=fr, pc=0, rs=0, build='plain', snap=flags.index('0')))
+
+
 def run(ctx):
     pr = vf.coq_props(ctx, 'C01')
     exes = {}
@@ -151,8 +286,26 @@ def run(ctx):
     broken = not pr['ok']
     if broken:
         n *= 4   # search budget after a proof/tie break
+    ctx.tie_broken = None
+    ctx.snap_stale = False
+    tie_ok = True
+    try:
+        sweep_exe = vf.build_cpp(ctx, 'cx_sweep.cpp', 'plain')
+        tie_ok = kernel_tie(ctx, sweep_exe, 20000 if ctx.quick else 200000, 160000 if ctx.quick else 3000000)
+    except vf.BuildFailure as e:
+        sweep_exe = None
+        tie_ok = False
+        ctx.tie_broken = [('cx_sweep.cpp does not build', str(e)[-800:], '')]
+    if not tie_ok:
+        n *= 4
     cases = gen_cases(ctx, n)
+    if sweep_exe and tie_ok:
+        snapshots(ctx, sweep_exe, cases)
     run_api(ctx, cases, exes, G)
+    if (not tie_ok or ctx.snap_stale) and not ctx.violations:
+        what = ('Sweep1D model and engine kernels disagree on synthetic AELs, e.g. %s' % (ctx.tie_broken[0],)
+                if ctx.tie_broken else 'ExecuteInternal changed: stepped driver stale')
+        ctx.violation('tie-break:Sweep1D', what[:900], replay=dict(disagreements=ctx.tie_broken, note='correspondence model<->engine no longer checks'), nofail=True)
     ctx.cov['rule'] = ('random closed subject/clip sets (8 shape families) accepted by the extracted Coq predicate general_position, '
                        'scaled/translated exactly into 7 coordinate regimes up to 2^61; each run under all 16 clip type x fill rule '
                        'combinations with random PreserveCollinear/ReverseSolution on the default and CLIPPER2_HI_PRECISION builds; '
